@@ -573,6 +573,9 @@ func c07Exec(cs c07Case) (ds []disc, evs []c07Ev, overlapping bool) {
 			}
 		}
 	}
+	if cs.Versioned && len(ds) == 0 {
+		ds = append(ds, c07VersionsPaged(r.st)...)
+	}
 	// (vi) at rest, reads and the listing agree: a key that reads back is listed with that ETag (as a
 	// key, and below its common prefix in a delimited listing), a key that does not is not listed
 	if !cs.Versioned {
@@ -675,6 +678,39 @@ func c07Multipart(r *c07Runner, evs []c07Ev) (ds []disc) {
 		ds = append(ds, dsc("multipart-assembly", "the completed object has %d bytes (md5 %s), the acknowledged parts concatenate to %d bytes (md5 %s)", len(g.Body), md5hex(g.Body), len(want), md5hex(want))...)
 	}
 	return
+}
+
+// c07VersionsPaged: at rest after a concurrent history, the version listing can be paged with the
+// markers the server hands out: every page size terminates and yields the unpaged listing (the IDs
+// the overlapping uploads were given order the versions the way the listing's markers assume).
+func c07VersionsPaged(st *backends.Stack) (ds []disc) {
+	doc, resp := c13List(st, "", "", 0, "", "", false)
+	if doc == nil {
+		return dsc("versions-unlistable", "at rest, ListObjectVersions answers %s", resp)
+	}
+	full := c13Entries(doc)
+	for mk := 1; mk <= 3; mk++ {
+		var got []c13Entry
+		km, vm, has := "", "", false
+		for pages := 0; ; pages++ {
+			if pages > len(full)+3 {
+				return dsc("versions-paging", "at rest, paging the %d versions with max-keys=%d does not terminate (marker %q / %q handed out again)", len(full), mk, km, vm)
+			}
+			d, r := c13List(st, "", "", mk, km, vm, has)
+			if d == nil {
+				return dsc("versions-paging", "at rest, a page of the version listing (max-keys=%d, key-marker %q, version-id-marker %q) answers %s", mk, km, vm, r)
+			}
+			got = append(got, c13Entries(d)...)
+			if !d.IsTruncated {
+				break
+			}
+			km, vm, has = d.NextKeyMarker, d.NextVersionIdMarker, true
+		}
+		if !entriesEq(got, full) {
+			return dsc("versions-paging", "at rest, the pages of the version listing (max-keys=%d) give %d entries, the unpaged listing %d:\n got %v\nwant %v", mk, len(got), len(full), got, full)
+		}
+	}
+	return nil
 }
 
 // ---- gate-controlled schedules ------------------------------------------------------------
@@ -799,6 +835,9 @@ func c07Gated(cs c07Case) (ds []disc, evs []c07Ev, overlapped int) {
 			if gv.Status != 200 || !bytes.Equal(gv.Body, want) {
 				ds = append(ds, dsc("acknowledged-version-lost", "upload %s was acknowledged with version %s, which nobody deleted, but GET by that ID answers %d (%d bytes)", e.Wrote, e.Version, gv.Status, len(gv.Body))...)
 			}
+		}
+		if len(ds) == 0 {
+			ds = append(ds, c07VersionsPaged(r.st)...)
 		}
 		return
 	}
